@@ -39,7 +39,7 @@ var c03bLines []string
 func (c03bFetcher) FetchSourcePackage(ctx context.Context, sourceType string, u *url.URL, targetDir string) (FetchSourcePackageResponse, error) {
 	d := c03bName("d", []string{"d", ".terraform", ".git", "a+b"})
 	e := c03bName("e", []string{"e", "modules"})
-	f := c03bName("f", []string{"f", "x.tf"})
+	f := c03bName("f", []string{"f", "x.tf", "\u00e9.tf"})
 	g := c03bName("g", []string{"g", "f"})
 	h := c03bName("h", []string{"h", "f", ".terraformrc"})
 	envMkdir(targetDir+"/"+d, 0755, 1000)
